@@ -103,9 +103,10 @@ def sweep(run, definitions, n_hash, n_orders, pending=()):
         ref_args, ref = lst[0]
         # generating twice in ONE process
         for args, dig in lst:
-            if dig.get("regenerated_header_sha256", dig["header_sha256"]) != dig["header_sha256"] or dig.get("regenerated_source_sha256", dig["source_sha256"]) != dig["source_sha256"]:
+            again = [(w, t) for w in ("header", "source") for t in ("regenerated", "after_python_compile") if dig.get(f"{t}_{w}_sha256", dig[f"{w}_sha256"]) != dig[f"{w}_sha256"]]
+            if again:
                 fails += 1
-                which = "header" if dig.get("regenerated_header_sha256") != dig["header_sha256"] else "source"
+                which = again[0][0] + (" (generated again after python.compile_ekf had compiled the same definition objects)" if again[0][1] == "after_python_compile" else "")
                 ob = run.prove(f"C15.native.same_output_when_generated_twice_in_one_process[{fails}]", [], z3.BoolVal(False), function="generation in subprocesses (PYTHONHASHSEED x declaration order x container)")
                 run.findings.append(Finding(ob.name, "regen", f"definition shape {[key[0][0], key[0][1], key[0][2], list(key[0][3])]} seed {key[1]}: the second generation in the same process (hashseed {args[4]}, order {args[3]}, {args[2]}) produced a different {which}", {"language": "python", "inputs": {"shape": [key[0][0], key[0][1], key[0][2], list(key[0][3])], "seed": key[1], "a": {"hashseed": args[4], "order_seed": args[3], "container": args[2], "warmup": args[7]}, "b": {"hashseed": args[4], "order_seed": args[3], "container": args[2], "warmup": args[7]}, "regenerate": True}, "oracle_verdict": [f"{which} differs on regeneration"]}, True))
                 break
